@@ -36,7 +36,7 @@ def run(ctx):
     cw = S.class_word_list(ctx.seed, 4 if q else 40)
     words += [(w, None, 'classword') for th, w in cw if th]
     groups, res = D.run_words(ctx, rnd, words, thumb=True)
-    D.check_cube_class(res)
+    D.check_cube_class(res, ctx)
     # the repository's own tests as a trace source: every emulate_cycle() they perform, judged on the complete state
     sg, summary = ST.groups(thumb=True)
     sres = C.judge_groups(ctx, sg, D.clause_filter, rnd=rnd, tags_of=D.tags_of, site_of=lambda e, v: (e.get('cls') or v['path']))
